@@ -163,6 +163,7 @@ impl Monitors {
         }
 
         self.check_sends(pre, rec, post, &told, delivered_genuine, at, out, stats);
+        self.check_relays(pre, rec, post, &told, at, out, stats);
         self.check_notifications_and_epochs(pre, rec, post, &told, delivered_genuine, at, out, stats);
         self.check_table(pre, rec, post, &told, at, out);
         self.check_incarnation(pre, rec, post, &told, at, out, stats);
@@ -301,6 +302,60 @@ impl Monitors {
                 } else {
                     v(out, "C19", "C19/own-address-destination", at, format!("{kind} sent to {to}, which bears the sender's own address (input {})", rec.input.kind()));
                 }
+            }
+        }
+    }
+
+    // ---- C12: replies and relays preserve origin, target and probe number ---------------------------
+    fn check_relays(&mut self, pre: &Obs, rec: &CallRec, post: &Obs, told: &Told, at: u64, out: &mut Vec<Violation>, stats: &mut Stats) {
+        let (Input::Data(d), Some(p)) = (&rec.input, &told.parsed) else { return };
+        if crate::models::accepted_view(d, pre.id, &self.cfg, self.codec).is_none() {
+            return;
+        }
+        let src = p.header.src;
+        let sender_active = post.active.iter().any(|m| *m.id() == src);
+        // replies are owed only by a connected instance to an active sender
+        if !sender_active || !post.connected() || post.id != pre.id {
+            return;
+        }
+        let sent: Vec<(SimId, Message<SimId>)> = rec
+            .sends()
+            .filter_map(|(to, data)| parse_datagram(self.codec, data).ok().map(|q| (*to, q.header.message)))
+            .collect();
+        let own = pre.id;
+        let expect: Option<(SimId, Message<SimId>)> = match &p.header.message {
+            Message::Ping(n) => Some((src, Message::Ack(*n))),
+            Message::PingReq { target, probe_number } if *target != own => Some((*target, Message::IndirectPing { origin: src, probe_number: *probe_number })),
+            Message::IndirectPing { origin, probe_number } if *origin != own => Some((src, Message::IndirectAck { target: *origin, probe_number: *probe_number })),
+            Message::IndirectAck { target, probe_number } if *target != own => Some((*target, Message::ForwardedAck { origin: src, probe_number: *probe_number })),
+            _ => None,
+        };
+        let names_self = match &p.header.message {
+            Message::PingReq { target, .. } | Message::IndirectAck { target, .. } => *target == own,
+            Message::IndirectPing { origin, .. } | Message::ForwardedAck { origin, .. } => *origin == own,
+            _ => false,
+        };
+        if names_self {
+            stats.inc("c12_indirect_for_ourselves");
+            if rec.result != Res::Err(ErrKind::IndirectForOurselves) {
+                v(out, "C12", "C12/indirect-for-ourselves-not-rejected", at, format!("{} naming this instance itself returned {:?}", msg_kind(&p.header.message), rec.result));
+            }
+            if sent.iter().any(|(_, m)| matches!(m, Message::IndirectPing { .. } | Message::IndirectAck { .. } | Message::ForwardedAck { .. })) {
+                v(out, "C12", "C12/indirect-for-ourselves-relayed", at, format!("{} naming this instance itself was relayed", msg_kind(&p.header.message)));
+            }
+            return;
+        }
+        if let Some((to, msg)) = expect {
+            // an error while handling trailing custom broadcasts does not cancel the reply
+            stats.inc("c12_replies_owed");
+            if !sent.iter().any(|(t, m)| *t == to && *m == msg) {
+                v(out, "C12", "C12/reply-or-relay-wrong", at, format!("{} from {src} should be answered with {:?} to {to}; sent: {:?}", msg_kind(&p.header.message), msg, sent));
+            }
+            // and nothing of the relay family besides it
+            let family = |m: &Message<SimId>| matches!(m, Message::Ack(_) | Message::IndirectPing { .. } | Message::IndirectAck { .. } | Message::ForwardedAck { .. });
+            let extra = sent.iter().filter(|(t, m)| family(m) && !(*t == to && *m == msg)).count();
+            if extra > 0 {
+                v(out, "C12", "C12/unexpected-relay", at, format!("{} from {src} caused {extra} additional reply/relay datagram(s): {:?}", msg_kind(&p.header.message), sent));
             }
         }
     }
